@@ -16,7 +16,7 @@ import itertools
 import random
 from fractions import Fraction as Fr
 
-from common import fr, impl, impl_site
+from common import close_floats, fr, impl, impl_site
 from dsl import N, V, ev, params_impl
 from gen import nontrivial, signature
 from pipeline import ImplFns, compare_value_arrays, explicit_case, materialise_case, model_solve
@@ -26,7 +26,7 @@ RULE = ("cases = generated dyadic specifications x {affine transformation of uti
         "model, degenerate stochastic transition}; distinct = structural signature x law; evaluations = array entries related by the law")
 ASSUMPTIONS = ["exact comparison on dyadic inputs (a, b, beta dyadic)", "rows of every transition array sum to one (generator)"]
 LAWS = ["affine", "beta0", "stationary", "degenerate"]
-FORCES = [None, ["filter"], ["stoch"], ["mixed"], ["constraint"], ["cont2"], ["aux"], ["stoch", "filter"]]
+FORCES = [None, ["filter"], ["stoch"], ["mixed"], ["constraint"], ["cont2"], ["aux"], ["stoch", "filter"], ["stoch3", "eqsize"], ["stoch3"]]
 
 
 def cases(seed, tier):
@@ -100,7 +100,7 @@ def run_case(case):
                 geo = sum(P["beta"] ** k for k in range(T - t))
                 want = float(a) * V1[t] + float(b * geo)
                 evals += int(V1[t].size)
-                if not np.array_equal(want, V2[t]):
+                if not close_floats(want, V2[t]):
                     k = int(np.nonzero(np.ravel(want != V2[t]))[0][0])
                     vs.append({"clause": "utility -> a*utility + b gives a*V + b*sum beta^k", "detail": f"a={a} b={b} beta={P['beta']} period {t} flat index {k}: expected {fr(float(np.ravel(want)[k]))}, got {fr(float(np.ravel(V2[t])[k]))}"})
                     break
@@ -121,7 +121,7 @@ def run_case(case):
                 # functions of _period only, hence unchanged
                 V2 = solve(m2, P2)
                 evals += int(V1[t].size)
-                if V2[t].shape != V1[t].shape or not np.array_equal(V2[t], V1[t]):
+                if V2[t].shape != V1[t].shape or not close_floats(V2[t], V1[t]):
                     vs.append({"clause": "with beta = 0 every period equals its one-period problem", "detail": f"period {t}: {V1[t].ravel()[:4]} vs one-period {V2[t].ravel()[:4]}"})
                     break
         elif law == "stationary":
@@ -134,7 +134,7 @@ def run_case(case):
             V2 = solve(m2, P)
             for j in range(T):
                 evals += int(V1[T - 1 - j].size)
-                if not np.array_equal(V1[T - 1 - j], V2[T2 - 1 - j]):
+                if not close_floats(V1[T - 1 - j], V2[T2 - 1 - j]):
                     vs.append({"clause": "period-independent model: values j periods before the end are the same for every horizon", "detail": f"T={T}, T'={T2}, j={j}"})
                     break
         elif law == "degenerate":
@@ -163,7 +163,7 @@ def run_case(case):
             V2 = solve(m2, P2)
             for t in range(T):
                 evals += int(V1[t].size)
-                if V1[t].shape != V2[t].shape or not np.array_equal(V1[t], V2[t]):
+                if V1[t].shape != V2[t].shape or not close_floats(V1[t], V2[t]):
                     vs.append({"clause": "degenerate transition rows give the same solution as the deterministic transition", "detail": f"state {x} period {t}: {V1[t].ravel()[:4]} vs {V2[t].ravel()[:4]}"})
                     break
     except Exception as e:  # noqa: BLE001
